@@ -137,3 +137,165 @@ class iname_encoded_length(Contract):
         field = nf.InterestPacketValue.name
         comps = [bytes.fromhex(x) for x in i['name']['components_hex']]
         return (field, comps, {'_need_digest##args': bool(i['need_digest'])}), {}
+
+
+# ----------------------------------------------------------------------------- encode_into
+def _state(it, env, g):
+    """ghost facts about one point of the component loop of encode_into"""
+    run = it.run
+    name, dp = g['name'], g['dp']
+    i = zint(g['i'])
+    base = zint(g['base'])
+    passed = z3.And(z3.Not(zbool(dp.isnone)), i > zint(dp.val))          # the digest component was already written
+    before = name.psum(dp.val) if not (dp.isnone is True) else z3.IntVal(0)
+    return name, dp, i, base, passed, before
+
+
+def _enc_inv(it, env, g):
+    run = it.run
+    name, dp, i, base, passed, before = _state(it, env, g)
+    wire = env['wire']
+    lst = g['covered']
+    db = env['digest_buf']
+    out = {'offset_accounting': zint(env['offset']) == base + name.psum(i),
+           'inside_buffer': zint(env['offset']) <= zint(wire.length),
+           'cover_start': zint(env['cover_start']) == z3.If(passed, base + before + 34, base),
+           'frame': g['cx'].frame(wire, g['off0'], simp(zint(g['off0']) + 1 + tlsize(g['L']) + zint(g['L']))),
+           'header': And(wire.at(run.heap, g['off0']) == TYPE_NAME, tlenc_at(run.heap, wire, simp(zint(g['off0']) + 1), g['L']))}
+    # covered list: nothing before the digest component was reached; afterwards exactly the bytes in front of it (if any)
+    if len(lst) == 0:
+        out['covered_so_far'] = Not(And(passed, before > 0))
+    elif len(lst) == 1 and isinstance(lst[0], View):
+        v = lst[0]
+        out['covered_so_far'] = And(passed, before > 0, Eq(v.cell, wire.cell), zint(v.start) == zint(wire.start) + base,
+                                    zint(v.length) == before)
+    else:
+        out['covered_so_far'] = False
+    if db is None:
+        out['digest_buffer_so_far'] = Not(passed)
+    elif isinstance(db, View):
+        out['digest_buffer_so_far'] = And(passed, Eq(db.cell, wire.cell), zint(db.start) == zint(wire.start) + base + before + 2,
+                                          zint(db.length) == 32)
+    else:
+        out['digest_buffer_so_far'] = False
+    return out
+
+
+def _enc_ghost(it, env, g):
+    gg = it.run.ghost['iname.enc']
+    return dict(gg)
+
+
+def _enc_havoc_state(it, env, g):
+    """havoc of the covered list / digest buffer / cover_start: case split on 'digest component already written'"""
+    run = it.run
+    name, dp = g['name'], g['dp']
+    lst = g['covered']
+    del lst[:]
+    wire = env['wire']
+    base = zint(g['base'])
+    which = run.choose([('digest not reached yet', True), ('digest already written', Not(dp.isnone))], 'loop state')
+    if which == 'digest not reached yet':
+        env['digest_buf'] = None
+        return base
+    before = name.psum(dp.val)
+    if run.branch(before > 0, 'components in front of the digest'):
+        lst.append(View(wire.cell, simp(zint(wire.start) + base), simp(before), 'memoryview', True))
+    env['digest_buf'] = View(wire.cell, simp(zint(wire.start) + base + before + 2), 32, 'memoryview', True)
+    return simp(base + before + 34)
+
+
+@contract
+class iname_encode_into(Contract):
+    fn = tm.InterestNameField.encode_into
+    props = P
+    doc = ('InterestNameField.encode_into (component lists of any length): writes 07, the shortest-form announced length and '
+           'every component at consecutive offsets, appends 02 20 <32 bytes> when a digest is needed and absent; the signer '
+           'is handed exactly the component bytes except the digest component (at most two ranges), the digest buffer is the '
+           '32 value bytes of the digest component; returns the announced size; nothing else is written')
+    raises = {struct.error: lambda cx, **p: zint(p['offset']) + 1 + tlsize(p['markers'][key(p['self'], 'encoded_length')]) +
+              zint(p['markers'][key(p['self'], 'encoded_length')]) > zint(p['wire'].length),
+              ValueError: lambda cx, **p: zint(p['offset']) + 1 + tlsize(p['markers'][key(p['self'], 'encoded_length')]) +
+              zint(p['markers'][key(p['self'], 'encoded_length')]) > zint(p['wire'].length)}
+    loops = {1: LoopSpec(_enc_inv, ghost=_enc_ghost,
+                         havoc={'cover_start': _enc_havoc_state, 'digest_buf': lambda it, env, g: env['digest_buf']})}
+
+    def setup(self, cx):
+        run = cx.run
+        self_ = mk_self(cx)
+        name = run.input_bufseq('name', 'bytearray')
+        run.assume(name.total() < 2 ** 24)
+        h = run.heap
+        run.assume(wf_components(run, h, name))
+        need = run.input_bool('need_digest')
+        dpk = run.choose([('no digest component', True), ('digest component', True)], 'digest_pos')
+        dp = OptInt(True, 0) if dpk == 'no digest component' else OptInt(False, run.input_int('digest_pos'))
+        others, at = digest_facts(h, name, dp, need)
+        run.assume(z3.And(others, at))
+        if dp.isnone is False:
+            run.assume(z3.Select(name.lens, zint(dp.val)) == 34)
+        total = name.total()
+        L = run.fresh_int('L')
+        run.assume(L == total + z3.If(z3.And(zbool(need), zbool(dp.isnone)), 34, 0))
+        covered = []
+        markers = {key(self_, 'encoded_length'): L, key(self_, 'preprocessed_name'): name, key(self_, 'digest_pos'): dp if dp.isnone is False else None,
+                   arg_key(A(self_, 'need_digest')): need, arg_key(A(self_, 'sig_covered_part')): covered}
+        wire = run.input_buf('wire', 'memoryview', True)
+        offset = run.input_int('offset')
+        run.ghost['iname.enc'] = dict(name=name.copy(), dp=dp, L=L, covered=covered, cx=cx, off0=offset,
+                                      base=simp(zint(offset) + 1 + tlsize(L)), need=need)
+        return dict(self=self_, val=None, markers=markers, wire=wire, offset=offset)
+
+    def pre(c, cx, self, val, markers, wire, offset):
+        return And(zint(offset) >= 0, zint(offset) <= zint(wire.length), zint(wire.length) > 0)
+
+    def post(c, cx, result, self, val, markers, wire, offset):
+        run = cx.run
+        g = run.ghost['iname.enc']
+        name, dp, L, need = g['name'], g['dp'], g['L'], g['need']
+        h = cx.heap
+        base = zint(g['base'])
+        total = name.total()
+        lst = markers[arg_key(A(self, 'sig_covered_part'))]
+        db = markers.get(arg_key(A(self, 'digest_buffer')))
+        out = {'as_announced': Eq(result, 1 + tlsize(L) + L),
+               'type_byte': wire.at(h, offset) == TYPE_NAME,
+               'length_shortest': tlenc_at(h, wire, simp(zint(offset) + 1), L),
+               'frame': cx.frame(wire, offset, simp(zint(offset) + 1 + tlsize(L) + zint(L)))}
+        # the signed portion of the name: every component except the digest component
+        if dp.isnone is True:
+            exp = [(base, total)]
+            digest_at = base + total + 2
+        else:
+            before = name.psum(dp.val)
+            exp = [(base, before), (base + before + 34, total - before - 34)]
+            digest_at = base + before + 2
+        ranges = [(zint(v.start) - zint(wire.start), zint(v.length)) for v in lst if isinstance(v, View)]
+        ok_views = all(isinstance(v, View) and Eq(v.cell, wire.cell) is True for v in lst)
+        out['covered_are_views_of_wire'] = ok_views
+        # compare as lists of non-empty ranges
+        conds = []
+        if len(ranges) == 0:
+            conds = [ln <= 0 for _, ln in exp]
+        elif len(ranges) == 1:
+            alts = []
+            for idx, (st, ln) in enumerate(exp):
+                others_empty = [l2 <= 0 for j2, (_, l2) in enumerate(exp) if j2 != idx]
+                alts.append(And(ln > 0, ranges[0][0] == st, ranges[0][1] == ln, *others_empty))
+            conds = [Or(*alts)]
+        elif len(ranges) == 2 and len(exp) == 2:
+            conds = [And(exp[0][1] > 0, exp[1][1] > 0, ranges[0][0] == exp[0][0], ranges[0][1] == exp[0][1],
+                         ranges[1][0] == exp[1][0], ranges[1][1] == exp[1][1])]
+        else:
+            conds = [False]
+        out['signer_gets_all_components_except_the_digest'] = And(*conds)
+        if cx.it.truth(need) is False:
+            out['no_digest_buffer_without_need'] = db is None
+        else:
+            # (when the caller's buffer is too small for the appended digest value the slice is silently shorter; callers
+            #  allocate the announced size, so the clause is stated for buffers that hold the whole Name)
+            fits = zint(offset) + 1 + tlsize(L) + zint(L) <= zint(wire.length)
+            out['digest_buffer_is_the_digest_value'] = Implies(And(cx.it.truth(need), fits), And(
+                isinstance(db, View), *( [Eq(db.cell, wire.cell), zint(db.start) - zint(wire.start) == digest_at, zint(db.length) == 32]
+                                         if isinstance(db, View) else [False])))
+        return out
